@@ -78,6 +78,7 @@ func TestVerifRecC11(t *testing.T) {
 	cfg := os.Getenv("VERIF_CFG")
 	w := newVWriter(dir, "C11-"+cfg, 16)
 	defer w.close()
+	defer vfresh(w, cfg, "ristretto")
 	g := &vpool{r: rand.New(rand.NewSource(seed))}
 	ev := func(op string) vev { return vev{"op": op, "cfg": cfg} }
 	E4 := []*EdwardsPoint{EIGHT_TORSION[0], EIGHT_TORSION[2], EIGHT_TORSION[4], EIGHT_TORSION[6]}
